@@ -628,6 +628,14 @@ def main(run):
             why = oracle(Ls, Rs, {}, False)
             if why and not why.startswith("skip:"):
                 viols.append({"what": why, "replay": dict(d, finding_key="two-prefixes-one-uri-on-left-root")})
+    # labelled stream of the open finding processing-instruction-below-root (the differ raises; outside the model)
+    from xmldiff.formatting import XmlDiffFormatter as _XDF
+    for Ls, Rs in differ_props.PI_STREAM:
+        try:
+            xm.diff_trees(etree.fromstring(Ls), etree.fromstring(Rs), formatter=_XDF())
+        except Exception as ex:  # noqa
+            viols.append({"what": "diff_trees(..., formatter=XmlDiffFormatter()) raised %s: %s" % (type(ex).__name__, ex),
+                          "replay": {"left": Ls, "right": Rs, "wrap": False, "opts": {}, "finding_key": "processing-instruction-below-root"}})
     bad2, log2 = ([], "")
     if pinfo.get("build_ok"):
         bad2, log2 = lib.run_cases("C18p", PRE2, prem, chunk=60)
